@@ -134,6 +134,11 @@ void *zone_malloc(zone_malloc_t *gdata, size_t size)
     int nb_units;
     zone_malloc_chunk_list_t* fl;
 
+    /* A request that needs more units than the zone holds can never be served;
+     * answer before the unit count is narrowed to an int. */
+    if (size / gdata->unit_size > (size_t)gdata->max_segment) {
+        return NULL;
+    }
     nb_units = (size + gdata->unit_size - 1) / gdata->unit_size;
 
     if (nb_units == 0) {
